@@ -538,5 +538,12 @@ example : ∃ steps st', ChosenPath miniMatch exApp (exReq "GET" ['/', 'a', '/',
   have := congrArg List.length h4
   simpa using this.symm
 
+/-- hypothesis of `C09_append_stable` / `C09_later_irrelevant`: for `GET /a/b/5` the first top-level
+service (scope `/a`) matches, so anything registered after it is irrelevant -/
+example : ∃ c ∈ exApp.children,
+    ¬ Rejects miniMatch (exReq "GET" ['/', 'a', '/', 'b', '/', '5']) c (St.init exApp) := by
+  refine ⟨_, List.mem_cons_self, fun h => h 2 [] ⟨by decide +kernel, ?_⟩⟩
+  intro g hg; cases hg
+
 end Examples
 end ActixModel.Route.C09
